@@ -32,9 +32,9 @@ fn plan(tier: Tier) -> Vec<(Seg, u64)> {
     let mut v = vec![(Seg::Exh1, 1), (Seg::Exh2, (a * a).div_ceil(EXH_BATCH)), (Seg::Family, soup::FAMILIES.len() as u64), (Seg::Ladder, 6), (Seg::Slow, 4)];
     match tier {
         Tier::Quick => {
-            v.push((Seg::Random, 700));
-            v.push((Seg::Mutated, 500));
-            v.push((Seg::Bytes, 150));
+            v.push((Seg::Random, 4000));
+            v.push((Seg::Mutated, 2500));
+            v.push((Seg::Bytes, 400));
         }
         Tier::Thorough => {
             v.push((Seg::Exh3, (a * a * a).div_ceil(EXH_BATCH)));
